@@ -772,3 +772,180 @@ Theorem repaired_witnesses_ok :
   /\ route_status arithF [f64_of_bits 1] = Ok tt
   /\ route_status arithF [f64_of_bits 9214871658872686752; f64_of_bits 9214871658872686752] = Ok tt.
 Proof. repeat split; vm_compute; reflexivity. Qed.
+
+(* ====================================================================== *)
+(* where the even fallback of 290c777 replaces a proportional distribution *)
+(* ====================================================================== *)
+Lemma f64_le_true x y : fin64 x = true -> fin64 y = true -> R64 x <= R64 y -> f64_le x y = true.
+Proof.
+  intros Hx Hy H. unfold f64_le, b64_compare. rewrite (Bcompare_correct 53 1024 x y Hx Hy).
+  destruct (Rcompare_spec (R64 x) (R64 y)); try reflexivity. lra.
+Qed.
+
+Lemma f64_gt_true x y : fin64 x = true -> fin64 y = true -> R64 y < R64 x -> f64_gt x y = true.
+Proof.
+  intros Hx Hy H. destruct (f64_gt_spec x y Hx Hy) as [_ Hf].
+  destruct (f64_gt x y); [reflexivity|]. specialize (Hf eq_refl). lra.
+Qed.
+
+Lemma usable_of_range (w : f64) : fin64 w = true -> 0 <= R64 w <= 1 + / 65536 ->
+  R64 w <= R64 f64_wmax -> usable arithF w = true.
+Proof.
+  intros Hf [H0 _] Hm. unfold usable. cbn [a_le a_zero a_wmax arithF].
+  destruct zeroF_ok as [H0r H0f]. apply andb_true_iff. split.
+  - apply f64_le_true; [exact H0f|exact Hf|rewrite H0r; exact H0].
+  - apply f64_le_true; [exact Hf|reflexivity|exact Hm].
+Qed.
+
+(** never starved / never picked on binary64: a positive usable weight gets at least one slot,
+    a zero weight none *)
+Theorem slot_countF_pos (w : f64) : fin64 w = true -> 0 < R64 w <= 1 + / 65536 ->
+  (1 <= slot_count arithF w <= 10000)%Z.
+Proof.
+  intros Hf [H0 H1]. pose proof (slot_countF_range w Hf ltac:(lra)) as Hr. split; [|lia].
+  destruct zeroF_ok as [H0r H0f].
+  assert (Hgt : f64_gt w (f64_of_Z 0) = true) by (apply f64_gt_true; [exact Hf|exact H0f|rewrite H0r; exact H0]).
+  unfold slot_count in *. cbv zeta in *. cbn [a_trunc a_mul a_max_slots a_gt a_zero arithF] in *.
+  rewrite Hgt in *. destruct (f64_trunc (b64_mult mode_NE (f64_of_Z 10000) w) =? 0)%Z eqn:E; cbn [andb] in *; [lia|].
+  apply Z.eqb_neq in E. lia.
+Qed.
+
+Theorem slot_countF_zero (w : f64) : fin64 w = true -> R64 w = 0 -> slot_count arithF w = 0%Z.
+Proof.
+  intros Hf H0. destruct zeroF_ok as [H0r H0f].
+  assert (Hgt : f64_gt w (f64_of_Z 0) = false).
+  { destruct (f64_gt_spec w (f64_of_Z 0) Hf H0f) as [Ht _].
+    destruct (f64_gt w (f64_of_Z 0)); [specialize (Ht eq_refl); lra|reflexivity]. }
+  unfold slot_count. cbv zeta. cbn [a_trunc a_mul a_max_slots a_gt a_zero arithF]. rewrite Hgt, andb_false_r.
+  destruct (f64_of_Z_correct 10000 ltac:(cbn; lia)) as [Hc Hcf].
+  change (b64_mult mode_NE) with fmult.
+  destruct (fmult_ok (f64_of_Z 10000) w 0 ltac:(lia) Hcf Hf) as [Hr Hrf].
+  { rewrite Hc, H0, Rmult_0_r, Rabs_R0. apply bpow_ge_0. }
+  rewrite Hc, H0, Rmult_0_r, rnd_0 in Hr.
+  unfold f64_trunc. rewrite Hrf.
+  assert (Hz : Binary.Btrunc 53 1024 (fmult (f64_of_Z 10000) w) = 0%Z).
+  { pose proof (Btrunc_correct 53 1024 Hmax1024 (fmult (f64_of_Z 10000) w)) as Hb.
+    rewrite round_FIX_IZR, Hr in Hb. apply eq_IZR in Hb. rewrite Hb. apply (Ztrunc_IZR 0). }
+  rewrite Hz. reflexivity.
+Qed.
+
+(** on the sane domain the scale factor is a finite number in [2^-53, 2^1000] *)
+Lemma scale_bounds l : Forall sane_fixed l -> (Z.of_nat (length l) <= 2 ^ 53)%Z -> n_fixed arithF l <> 0%nat ->
+  let scale := scale_from arithF (n_fixed arithF l) (length l) (sum_fixed arithF l) in
+  fin64 scale = true /\ bpow radix2 (-53) <= R64 scale <= bpow radix2 1000.
+Proof.
+  intros Hl Hlen E0. cbv zeta.
+  destruct oneF_ok as [H1r H1f].
+  destruct (sum_fixed_ok l Hl Hlen) as (Hsf & Hsr & Hsg). cbv zeta in *.
+  set (sf := sum_fixed arithF l) in *.
+  assert (HlenR : IZR (Z.of_nat (length l)) <= bpow radix2 53) by (rewrite bpow53; apply IZR_le; exact Hlen).
+  assert (Hsfpos : bpow radix2 (-1000) <= R64 sf).
+  { unfold n_fixed in E0. destruct (filter (is_fixed arithF) l) as [|g gs] eqn:Eg; [cbn in E0; congruence|].
+    assert (Hg : In g (filter (is_fixed arithF) l)) by (rewrite Eg; now left).
+    apply filter_In in Hg. destruct Hg as [Hgin Hgf]. destruct (Hsg g Hgin Hgf). lra. }
+  pose proof (bpow_gt_0 radix2 (-1000)) as Hm1000. pose proof (bpow_gt_0 radix2 (-53)) as Hm53.
+  assert (H53le1 : bpow radix2 (-53) <= 1) by (apply bpow_le_1; lia).
+  assert (H1le : 1 <= bpow radix2 1000) by (change 1 with (bpow radix2 0); apply bpow_le; lia).
+  assert (Hq2 : 1 / R64 sf <= bpow radix2 1000).
+  { apply Rmult_le_reg_r with (R64 sf); [lra|]. unfold Rdiv. rewrite Rmult_assoc, Rinv_l by lra.
+    apply Rle_trans with (bpow radix2 1000 * bpow radix2 (-1000)).
+    - rewrite <- bpow_plus. cbn [Z.add]. rewrite Z.pos_sub_diag. cbn [bpow]. lra.
+    - apply Rmult_le_compat_l; [apply bpow_ge_0|lra]. }
+  assert (Hq1 : bpow radix2 (-53) <= 1 / R64 sf).
+  { apply Rmult_le_reg_r with (R64 sf); [lra|]. unfold Rdiv. rewrite Rmult_assoc, Rinv_l by lra.
+    apply Rle_trans with (bpow radix2 (-53) * bpow radix2 53).
+    - apply Rmult_le_compat_l; lra.
+    - rewrite <- bpow_plus. cbn [Z.add]. rewrite Z.pos_sub_diag. cbn [bpow]. lra. }
+  assert (Hdiv : fin64 (fdiv (f64_of_Z 1) sf) = true
+                 /\ bpow radix2 (-53) <= R64 (fdiv (f64_of_Z 1) sf) <= bpow radix2 1000).
+  { destruct (fdiv_ok (f64_of_Z 1) sf 1000 ltac:(lia) H1f ltac:(lra)) as [Hr Hrf].
+    { rewrite H1r. rewrite Rabs_pos_eq by lra. exact Hq2. }
+    rewrite H1r in Hr. split; [exact Hrf|]. rewrite Hr. split.
+    - apply round_ge_generic; [apply FLT_exp_valid; reflexivity|apply valid_rnd_round_mode|apply fmt_bpow; lia|exact Hq1].
+    - apply round_le_generic; [apply FLT_exp_valid; reflexivity|apply valid_rnd_round_mode|apply fmt_bpow; lia|exact Hq2]. }
+  unfold scale_from. cbn [a_gt a_lt a_div a_one arithF]. change (b64_div mode_NE) with fdiv.
+  destruct (f64_gt sf (f64_of_Z 1) || (Nat.eqb (n_fixed arithF l) (length l) && f64_lt sf (f64_of_Z 1))).
+  - exact Hdiv.
+  - split; [exact H1f|]. rewrite H1r. lra.
+Qed.
+
+Lemma in_le_zsum counts n : Forall (fun n => 0 <= n)%Z counts -> In n counts -> (n <= zsum counts)%Z.
+Proof.
+  induction 1 as [|m counts Hm Hall IH]; intros Hin; [destruct Hin|].
+  cbn [zsum fold_right]. fold (zsum counts). pose proof (zsum_nonneg counts Hall).
+  destruct Hin as [<-|Hin]; [lia|specialize (IH Hin); lia].
+Qed.
+
+(** C04_binary64_no_fallback_on_domain: with sane fixed weights (finite; dynamic, or in [2^-1000, 1])
+    the fallback of 290c777 is never taken: the ring is built from the computed weights *)
+Theorem binary64_no_fallback_on_domain (l : list f64) :
+  Forall sane_fixed l -> (Z.of_nat (length l) <= 3000000000)%Z -> n_fixed arithF l <> 0%nat ->
+  uses_fill arithF l = true /\ weigh arithF l = weigh_unrepaired arithF l.
+Proof.
+  intros Hl Hlen E0.
+  assert (Hu : uses_fill arithF l = true); [|split; [exact Hu|unfold weigh; now rewrite Hu]].
+  unfold uses_fill. apply andb_true_iff. split; [apply negb_true_iff, Nat.eqb_neq, E0|].
+  apply negb_true_iff. unfold fallback. cbv zeta. apply orb_false_iff.
+  pose proof (binary64_weights_on_domain_unrepaired l Hl ltac:(lia)) as Hw.
+  pose proof wmax_bounds as Hwm. pose proof u52_le as Hu52.
+  assert (Hwm2 : 1 + bpow radix2 (-52) <= R64 f64_wmax).
+  { rewrite wmax_R. pose proof (bpow_gt_0 radix2 (-52)). lra. }
+  split.
+  - apply negb_false_iff, forallb_forall. intros w Hin. destruct (Hw w Hin) as [Hf Hr].
+    apply usable_of_range; [exact Hf|lra|lra].
+  - apply Z.leb_gt.
+    set (counts := map (slot_count arithF) (weigh_unrepaired arithF l)).
+    assert (Hrange : Forall (fun n => 0 <= n <= 10000)%Z counts).
+    { apply Forall_forall. intros n Hn. apply in_map_iff in Hn. destruct Hn as (w & <- & Hin).
+      destruct (Hw w Hin) as [Hf Hr]. apply slot_countF_range; [exact Hf|lra]. }
+    assert (Hnn : Forall (fun n => 0 <= n)%Z counts) by (eapply Forall_impl; [|exact Hrange]; cbn; intros; lia).
+    assert (Hub : Forall (fun n => n <= 10000)%Z counts) by (eapply Forall_impl; [|exact Hrange]; cbn; intros; lia).
+    pose proof (zsum_bound' counts 10000 Hub) as Hz.
+    assert (Hlc : length counts = length l).
+    { unfold counts. rewrite map_length. unfold weigh_unrepaired. cbv zeta.
+      destruct (Nat.eqb (n_fixed arithF l) 0); apply map_length. }
+    rewrite Hlc in Hz.
+    change (total_slots counts) with (used_slots counts). rewrite used_slots_sum by (auto; lia).
+    (* a fixed target has a positive weight, hence a slot *)
+    assert (Hg : exists g, In g l /\ is_fixed arithF g = true).
+    { unfold n_fixed in E0. destruct (filter (is_fixed arithF) l) as [|g gs] eqn:Eg; [cbn in E0; congruence|].
+      assert (Hg : In g (filter (is_fixed arithF) l)) by (rewrite Eg; now left).
+      apply filter_In in Hg. exists g. exact Hg. }
+    destruct Hg as (g & Hgin & Hgf).
+    destruct (scale_bounds l Hl ltac:(lia) E0) as (Hscf & Hsc0 & Hsc1). cbv zeta in *.
+    set (scale := scale_from arithF (n_fixed arithF l) (length l) (sum_fixed arithF l)) in *.
+    assert (Hgs : sane_fixed g) by (rewrite Forall_forall in Hl; now apply Hl).
+    destruct (is_fixed_spec g Hgs) as [Hgr _]. specialize (Hgr Hgf). destruct Hgs as [Hgfin _].
+    assert (Hwin : In (fmult g scale) (weigh_unrepaired arithF l)).
+    { unfold weigh_unrepaired. cbv zeta.
+      replace (Nat.eqb (n_fixed arithF l) 0) with false by (symmetry; apply Nat.eqb_neq; exact E0).
+      apply in_map_iff. exists g. split; [|exact Hgin]. rewrite Hgf. reflexivity. }
+    destruct (Hw _ Hwin) as [Hwf Hwr].
+    assert (Hpos : 0 < R64 (fmult g scale)).
+    { pose proof (bpow_gt_0 radix2 (-1000)) as Hm1000. pose proof (bpow_gt_0 radix2 (-53)) as Hm53.
+      assert (Hprod : bpow radix2 (-1053) <= R64 g * R64 scale).
+      { replace (-1053)%Z with (-1000 + -53)%Z by lia. rewrite bpow_plus. apply Rmult_le_compat; lra. }
+      destruct (fmult_ok g scale 1000 ltac:(lia) Hgfin Hscf) as [Hr _].
+      { rewrite Rabs_pos_eq by (apply Rmult_le_pos; lra).
+        apply Rle_trans with (1 * bpow radix2 1000); [apply Rmult_le_compat; lra|lra]. }
+      rewrite Hr. apply Rlt_le_trans with (bpow radix2 (-1053)); [apply bpow_gt_0|].
+      apply round_ge_generic; [apply FLT_exp_valid; reflexivity|apply valid_rnd_round_mode|apply fmt_bpow; lia|exact Hprod]. }
+    pose proof (slot_countF_pos (fmult g scale) Hwf ltac:(lra)) as Hslot.
+    assert (Hin : In (slot_count arithF (fmult g scale)) counts) by (unfold counts; now apply in_map).
+    pose proof (in_le_zsum counts _ Hnn Hin). lia.
+Qed.
+
+(** C04_binary64_fallback_refuted: two fixed weights of 1 and 2 units in the last place of the
+    subnormal range (5e-324 and 1e-323), all targets fixed: 1/sumFixed = +Inf, the weights are unusable
+    and weighTargets distributes evenly, 0.5 / 0.5 (0x3FE0000000000000), where the exact algorithm (and
+    the property's "scaled up proportionally") gives 1/3 and 2/3.  Likewise 1e308 and 1.5e308
+    (0x7FE1CCF385EBC8A0, 1.5e308): the sum is +Inf, even fallback instead of 0.4 / 0.6. *)
+Theorem binary64_fallback_refuted :
+  uses_fill arithF (map f64_of_bits [1; 2]%Z) = false
+  /\ weighF [1; 2]%Z = [4602678819172646912; 4602678819172646912]%Z
+  /\ map Qreduction.Qred (weighQ (map (fun b => f64_to_Q (f64_of_bits b)) [1; 2]%Z))
+     = [QArith_base.Qmake 1 3; QArith_base.Qmake 2 3]
+  /\ weighF [9214871658872686752; 9217376869322697968]%Z = [4602678819172646912; 4602678819172646912]%Z
+  /\ map Qreduction.Qred (weighQ (map (fun b => f64_to_Q (f64_of_bits b)) [9214871658872686752; 9217376869322697968]%Z))
+     = [QArith_base.Qmake 2 5; QArith_base.Qmake 3 5].
+Proof. repeat split; vm_compute; reflexivity. Qed.
